@@ -208,10 +208,10 @@ func (g *Generator) makeSubMap(f1, f2 *Field, typ1, typ2 types.Type, isSlice boo
 		typ2 = p.Elem()
 	}
 
-	if n1, ok := typ1.(*types.Named); ok {
+	if n1, ok := typ1.(*types.Named); ok && n1.Obj().Pkg() != nil {
 		pkgpath1 := n1.Obj().Pkg().Path()
 
-		if n2, ok := typ2.(*types.Named); ok {
+		if n2, ok := typ2.(*types.Named); ok && n2.Obj().Pkg() != nil {
 			pkgpath2 := n2.Obj().Pkg().Path()
 
 			if pkgpath1 == g.Pkg().PkgPath && pkgpath2 == g.destPkg.PkgPath {
